@@ -16,7 +16,7 @@ RULE = (
     "constructor; distinct = distinct (node names, edge set); non-trivial = every case (accepted: closure+order contract "
     "evaluated; refused: reference confirms a cycle/self-loop/unknown/isolated node)"
 )
-REQUIRED = {"contract_evaluations": 1000, "accepted": 1000, "refused": 1000, "model_graphs": 10}
+REQUIRED = {"contract_evaluations": 1000, "accepted": 1000, "refused": 1000, "model_graphs": 10, "case_colliding_namings": 200}
 EXHAUSTIVE = {"quick": True, "thorough": True}
 ASSUMPTIONS = [
     "exhaustive scopes are finite (n<=5, loop-free at n=5 in quick); beyond them graphs are sampled",
@@ -167,6 +167,14 @@ def run_shard(spec, ctx):
         case = {"index": mask + (n << 40), "n": n, "mask": mask, "with_loops": with_loops, "names": names}
         anc = _graph_from_mask(n, mask, names, with_loops)
         dag = _attempt(VariablesDAG, names, anc, ctx, case)
+        if dag is not None and n >= 2 and mask % 7 == 0:
+            # names differing only by case ("t"/"T"): the order must still be a function of the definitions alone
+            pool = ["t", "T", "g", "G", "Tt", "tT"][:n] if n <= 6 else names
+            nm = list(rng.permutation(pool))
+            anc_c = _graph_from_mask(n, mask, nm, with_loops)
+            _attempt(VariablesDAG, nm, anc_c, ctx, dict(case, names=nm), rng=rng)
+            ctx.count("case_colliding_namings")
+            ctx.distinct_add(1)
         if dag is not None and extra_namings:
             for _ in range(extra_namings):
                 nm = list(rng.permutation(names))
@@ -216,6 +224,8 @@ def run_shard(spec, ctx):
             r = ctx.rng("sampled", spec["k"], i)
             n = int(r.integers(6, 61))
             names = [f"v{int(x):03d}" for x in r.permutation(n * 3)[:n]]
+            if i % 4 == 0:  # half of the names get a case twin of another one ("v012" / "V012")
+                names = [names[j - 1].upper() if (j % 2 and names[j - 1].upper() not in names) else nm for j, nm in enumerate(names)]
             topo = list(r.permutation(names))
             style = int(r.integers(0, 6))
             anc = {nm: set() for nm in names}
